@@ -1012,3 +1012,201 @@ Qed.
 
 Lemma stops_rune : forall cfg valid p c r, c <> 47 -> valid p (alias c) = false -> stops cfg valid p (c :: r).
 Proof. intros cfg valid p c r Hc Hv ln. rewrite nextf_plain by assumption. right. exact Hv. Qed.
+
+(* ================================================================== 9. operators *)
+Definition opener (cm : bool) (c : N) (rest : list N) : bool :=
+  cm && (c =? 47) && match rest with d :: _ => (d =? 47) || (d =? 42) | [] => false end.
+
+Lemma nextf_noopen : forall cm c rest ln, opener cm c rest = false ->
+  nextf cm true (c :: rest) ln = (alias c, rest, ln).
+Proof.
+  intros cm c rest ln H. unfold nextf, opener, al in *. rewrite andb_true_r.
+  destruct (cm && (c =? 47)); [|reflexivity]. cbn [andb] in H.
+  destruct rest as [|d rest']; [reflexivity|]. apply orb_false_iff in H. destruct H as [H1 H2]. rewrite H1, H2. reflexivity.
+Qed.
+
+(* no rune of w (followed by r) opens a comment *)
+Fixpoint noopen (cm : bool) (w r : list N) : bool :=
+  match w with [] => true | c :: w' => negb (opener cm c (w' ++ r)) && noopen cm w' r end.
+
+Fixpoint trie_walk (sufs : list str) (w : list N) : list str :=
+  match w with [] => sufs | c :: w' => trie_walk (step_ops sufs (alias c)) w' end.
+Fixpoint trie_alive (sufs : list str) (w : list N) : bool :=
+  match w with
+  | [] => true
+  | c :: w' => negb (is_nil (step_ops sufs (alias c))) && trie_alive (step_ops sufs (alias c)) w'
+  end.
+
+Lemma op_loop_scan : forall w f cm sufs r l ln, noopen cm w r = true -> trie_alive sufs w = true ->
+  step_ops (trie_walk sufs w) (fst (fst (nextf cm true r ln))) = [] -> (length w < f)%nat ->
+  op_loop f cm sufs (mkSt (w ++ r) false l ln)
+  = Some (map alias w, end_valid (trie_walk sufs w), unread (snd (next cm true (fresh r ln)))).
+Proof.
+  induction w as [|c w IH]; intros f cm sufs r l ln Hno Hal Hst Hf.
+  - destruct f as [|f]; [cbn in Hf; lia|]. cbn [app op_loop trie_walk map] in *. rewrite next_nolast.
+    unfold fresh in *. rewrite next_fresh in *. destruct (nextf cm true r ln) as [[n rs'] ln']. cbn [fst snd] in *.
+    rewrite Hst. reflexivity.
+  - destruct f as [|f]; [cbn in Hf; lia|]. cbn [noopen trie_alive trie_walk] in *.
+    apply andb_true_iff in Hno. destruct Hno as [Hop Hno]. apply negb_true_iff in Hop.
+    apply andb_true_iff in Hal. destruct Hal as [Hne Hal].
+    cbn [app op_loop]. rewrite next_fresh, nextf_noopen by assumption.
+    destruct (step_ops sufs (alias c)) as [|x t] eqn:S; [discriminate|].
+    rewrite IH by (assumption || (cbn in Hf; lia)). reflexivity.
+Qed.
+
+(* the (alias-rewritten) first rune reaches the default case of the switch *)
+Definition headok (n : N) : bool :=
+  negb (n =? 0) && negb (existsb (N.eqb n) [10; 32; 13; 9; 40; 41; 34; 39])
+  && match single_tok n with None => true | Some _ => false end && negb (is_sup n).
+
+Lemma step_ophead : forall f cfg lt lb c rest ln, opener (c_comments cfg) c rest = false -> headok (alias c) = true ->
+  step f cfg lt lb (fresh (c :: rest) ln) = step_word f cfg lt ln (mkSt rest false (alias c) ln).
+Proof.
+  intros f cfg lt lb c rest ln Hop H. unfold headok in H.
+  apply andb_true_iff in H. destruct H as [H Hsup]. apply andb_true_iff in H. destruct H as [H Hsingle].
+  apply andb_true_iff in H. destruct H as [H0 Hex].
+  unfold step. cbv zeta. unfold fresh. rewrite next_fresh, nextf_noopen by assumption.
+  set (n := alias c) in *.
+  cbn [s_line s_str s_isLast s_last]. cbn [existsb] in Hex.
+  destruct (N.eqb_spec n 10); [discriminate|]. destruct (N.eqb_spec n 32); [discriminate|].
+  destruct (N.eqb_spec n 13); [discriminate|]. destruct (N.eqb_spec n 9); [discriminate|].
+  destruct (N.eqb_spec n 0); [discriminate|]. destruct (N.eqb_spec n 40); [discriminate|].
+  destruct (N.eqb_spec n 41); [discriminate|]. destruct (N.eqb_spec n 34); [discriminate|].
+  destruct (N.eqb_spec n 39); [discriminate|]. cbn [orb].
+  destruct (single_tok n); [discriminate|]. unfold is_sup in Hsup. destruct (superscript n); [discriminate|]. reflexivity.
+Qed.
+
+(* what may follow an operator: no comment opener is formed with its runes, and the next rune does not extend it *)
+Definition op_follows (cfg : tcfg) (w : list N) (r : list N) : Prop :=
+  noopen (c_comments cfg) w r = true /\
+  forall ln, step_ops (trie_walk (c_ops cfg) w) (fst (fst (nextf (c_comments cfg) true r ln))) = [].
+
+Definition op_tok (cfg : tcfg) (w : list N) : ptok :=
+  (if end_valid (trie_walk (c_ops cfg) w) then tOperate else tInvalid, map alias w).
+
+Lemma lexeme_operator : forall cfg lt lb c w, ops_ok cfg -> headok (alias c) = true ->
+  number_start cfg (alias c) = false -> ident_start cfg (alias c) = false ->
+  trie_alive (c_ops cfg) (c :: w) = true ->
+  lexeme_at cfg lt lb (c :: w) [op_tok cfg (c :: w)] tInvalid (op_follows cfg (c :: w)).
+Proof.
+  intros cfg lt lb c w Ho Hh Hnum Hid Hal r ln [Hno Hst]. cbn [app].
+  cbn [noopen] in Hno. apply andb_true_iff in Hno. destruct Hno as [Hop Hno]. apply negb_true_iff in Hop.
+  rewrite (lex_step (S (S (length (w ++ r))))) by (assumption || (unfold msr, fresh; cbn; lia)).
+  rewrite step_ophead by assumption. unfold step_word. cbv zeta. rewrite peek_unread. cbn [s_last].
+  rewrite Hnum, Hid.
+  change (unread (mkSt (w ++ r) false (alias c) ln)) with (mkSt (w ++ r) true (alias c) ln).
+  unfold parse_operator. rewrite next_cached.
+  cbn [trie_alive] in Hal. apply andb_true_iff in Hal. destruct Hal as [Hne Hal].
+  destruct (step_ops (c_ops cfg) (alias c)) as [|x t] eqn:S; [discriminate|].
+  specialize (Hst ln). cbn [trie_walk] in Hst. rewrite S in Hst.
+  rewrite op_loop_scan by (assumption || (rewrite app_length; lia)).
+  rewrite lex_unread_next by (assumption || reflexivity).
+  unfold op_tok. cbn [trie_walk map]. rewrite S. reflexivity.
+Qed.
+
+Lemma alias_idem : forall c, alias (alias c) = alias c.
+Proof.
+  intros c. unfold alias.
+  repeat match goal with |- context [if ?a =? ?b then _ else _] => destruct (N.eqb_spec a b); subst; try reflexivity; try lia end.
+Qed.
+
+Lemma trie_walk_alias : forall w sufs, trie_walk sufs (map alias w) = trie_walk sufs w.
+Proof. induction w as [|c w IH]; intros sufs; [reflexivity|]. cbn [map trie_walk]. rewrite alias_idem. apply IH. Qed.
+
+Lemma trie_alive_alias : forall w sufs, trie_alive sufs (map alias w) = trie_alive sufs w.
+Proof. induction w as [|c w IH]; intros sufs; [reflexivity|]. cbn [map trie_alive]. rewrite alias_idem, IH. reflexivity. Qed.
+
+(* the typographic spelling of an operator denotes the same token as its ASCII spelling *)
+Lemma op_tok_alias : forall cfg w, op_tok cfg (map alias w) = op_tok cfg w.
+Proof.
+  intros cfg w. unfold op_tok. rewrite trie_walk_alias. f_equal.
+  rewrite map_map. apply map_ext. intro c. apply alias_idem.
+Qed.
+
+(* what may follow an operator, concretely: the end of the input or a separator *)
+Definition free (b : N) (sufs : list str) : Prop := forall o, In o sufs -> ~ In b o.
+
+Lemma step_ops_free : forall b sufs r, free b sufs -> free b (step_ops sufs r).
+Proof.
+  intros b sufs r H o Ho. unfold step_ops in Ho. apply in_flat_map in Ho. destruct Ho as (x & Hx & Hin).
+  destruct x as [|c t]; [destruct Hin|]. destruct (c =? r); [|destruct Hin].
+  destruct Hin as [<-|[]]. intro H0. apply (H _ Hx). right. exact H0.
+Qed.
+
+Lemma step_ops_free_nil : forall b sufs, free b sufs -> step_ops sufs b = [].
+Proof.
+  intros b sufs H. destruct (step_ops sufs b) as [|x l] eqn:E; [reflexivity|].
+  assert (Hin : In x (step_ops sufs b)) by (rewrite E; left; reflexivity).
+  unfold step_ops in Hin. apply in_flat_map in Hin. destruct Hin as (y & Hy & Hin).
+  destruct y as [|c t]; [destruct Hin|]. destruct (N.eqb_spec c b); [|destruct Hin].
+  subst. exfalso. apply (H _ Hy). left. reflexivity.
+Qed.
+
+Lemma trie_walk_free : forall b w sufs, free b sufs -> free b (trie_walk sufs w).
+Proof. induction w as [|c w IH]; intros sufs H; [exact H|]. cbn [trie_walk]. apply IH. apply step_ops_free. exact H. Qed.
+
+(* no operator contains a blank, a line break or NUL *)
+Definition ops_clean (cfg : tcfg) : Prop :=
+  free 0 (c_ops cfg) /\ free 32 (c_ops cfg) /\ free 9 (c_ops cfg) /\ free 13 (c_ops cfg) /\ free 10 (c_ops cfg).
+
+Lemma op_follows_nil : forall cfg w, ops_clean cfg -> noopen (c_comments cfg) w [] = true -> op_follows cfg w [].
+Proof.
+  intros cfg w (H0 & _) Hno. split; [assumption|]. intro ln. cbn. apply step_ops_free_nil. apply trie_walk_free. exact H0.
+Qed.
+
+Lemma op_follows_sep : forall cfg w x r, ops_clean cfg -> sep_ok (c_comments cfg) x = true -> sep_final x = false ->
+  noopen (c_comments cfg) w (sep_text x ++ r) = true -> op_follows cfg w (sep_text x ++ r).
+Proof.
+  intros cfg w x r (H0 & H32 & H9 & H13 & H10) Hok Hfin Hno. split; [assumption|]. intro ln.
+  assert (Hb : forall b, In b [0; 32; 9; 13; 10] -> step_ops (trie_walk (c_ops cfg) w) b = []).
+  { intros b Hb. apply step_ops_free_nil. apply trie_walk_free. cbn in Hb.
+    destruct Hb as [<-|[<-|[<-|[<-|[<-|[]]]]]]; assumption. }
+  destruct x as [| | | |b t|b|b|b]; cbn [sep_text app]; try discriminate;
+    try (rewrite nextf_plain by discriminate; apply Hb; cbn; tauto).
+  - cbn [sep_ok] in Hok. apply andb_true_iff in Hok. destruct Hok as [Hok Ht]. apply andb_true_iff in Hok. destruct Hok as [Hcm Hbd].
+    assert (Ht' : t = 10 \/ t = 13) by (apply orb_true_iff in Ht; destruct Ht as [Ht|Ht]; apply N.eqb_eq in Ht; auto).
+    unfold nextf. rewrite Hcm. cbn [andb N.eqb Pos.eqb]. rewrite <- app_assoc. cbn [app]. rewrite skip_line_body by assumption.
+    destruct Ht' as [Ht'|Ht']; subst t; apply Hb; cbn; tauto.
+  - cbn [sep_ok] in Hok. apply andb_true_iff in Hok. destruct Hok as [Hcm Hbd].
+    unfold nextf. rewrite Hcm. cbn [andb N.eqb Pos.eqb]. rewrite <- app_assoc. cbn [app]. rewrite skip_block_body by assumption.
+    destruct r; apply Hb; cbn; tauto.
+Qed.
+
+(* ================================================================== 10. statements used by Props/C15.v *)
+
+Lemma string_literal_roundtrip_lemma : forall cfg s, ops_ok cfg -> no_nul s ->
+  tokenize cfg (string_literal s) = [mkTok tString s 1].
+Proof.
+  intros cfg s Ho Hn. rewrite tokenize_lex by assumption.
+  pose proof (lexeme_string cfg tInvalid false s Ho Hn [] 1 I) as H. rewrite app_nil_r in H. rewrite H.
+  rewrite lex_eof by assumption. reflexivity.
+Qed.
+
+Lemma quoted_ident_exact_lemma : forall cfg s, ops_ok cfg -> ~ In 0 s -> ~ In 39 s ->
+  tokenize cfg (quoted_ident s) = [mkTok tIdent s 1].
+Proof.
+  intros cfg s Ho H0 H39. rewrite tokenize_lex by assumption.
+  pose proof (lexeme_quoted cfg tInvalid false s Ho H0 H39 [] 1 I) as H. rewrite app_nil_r in H. rewrite H.
+  rewrite lex_eof by assumption. reflexivity.
+Qed.
+
+(* an operator written with typographic aliases denotes the token of its ASCII spelling *)
+Lemma aliases_equal_ascii_lemma : forall cfg lt lb c w, ops_ok cfg -> headok (alias c) = true ->
+  number_start cfg (alias c) = false -> ident_start cfg (alias c) = false ->
+  trie_alive (c_ops cfg) (c :: w) = true ->
+  lexeme_at cfg lt lb (c :: w) [op_tok cfg (map alias (c :: w))] tInvalid (op_follows cfg (c :: w)).
+Proof. intros. rewrite op_tok_alias. apply lexeme_operator; assumption. Qed.
+
+(* comfort mode bookkeeping: which lexemes are preceded by an implicit '*' *)
+Lemma comfort_bookkeeping : forall cfg, c_comfort cfg = true ->
+  (this_ty cfg tNumber = tNumber /\ this_ty cfg tIdent = tIdent /\ this_ty cfg tClose = tClose) /\
+  (forall lt, mul_toks lt = (if match lt with tNumber | tIdent | tClose => true | _ => false end
+                             then [(tOperate, [42])] else [])) /\
+  (forall lt lb, mul_before_open lt lb =
+                 match lt with tNumber | tClose => true | tIdent => lb | _ => false end).
+Proof.
+  intros cfg H. unfold this_ty. rewrite H. repeat split.
+Qed.
+
+Lemma no_comfort_bookkeeping : forall cfg, c_comfort cfg = false -> forall t, this_ty cfg t = tInvalid.
+Proof. intros cfg H t. unfold this_ty. rewrite H. reflexivity. Qed.
